@@ -913,3 +913,29 @@ func init() {
 	props["C03"] = checkC03
 	_ = sort.Strings
 }
+
+// clientServerPathAgreement — R01l: the path literal reconstructed from the Go client equals the one reconstructed from the
+// Go server on a grid of configurations (base path present/absent/without slash x method path with/without leading slash,
+// with variables), the two ends of C01's call.
+func clientServerPathAgreement(c *Ctx, rid string) {
+	r := c.R
+	var cases []c03Scenario
+	for _, b := range []string{"", "/zqb", "zqb", "/zqb/"} {
+		for _, p := range []string{"/zqp/{id}", "zqp/{id}", "/zqp", "zqp"} {
+			cases = append(cases, c03Scenario{Base: b, Cfg: &c03Cfg{Path: p, Method: "POST"}})
+		}
+	}
+	for _, s := range cases {
+		srv := c.observeEmitted(pkgHTTP, "_http.pb.go", s)
+		cli := c.observeEmitted(pkgClient, "_client.pb.go", s)
+		if srv.Err != "" || cli.Err != "" {
+			r.Unres(rid, s.String(), srv.Pos, srv.Err+" "+cli.Err)
+			continue
+		}
+		srv.split(nil)
+		cli.split(nil)
+		a, b := strings.Join(srv.Paths, " | "), strings.Join(cli.Paths, " | ")
+		r.CheckD(a == b && a != "" && !strings.Contains(a, " | "), rid, "Go client and Go server path: "+s.String(), cli.Pos,
+			fmt.Sprintf("%s: the Go server registers %q, the Go client requests %q: the call does not reach the handler of its RPC", s, a, b), map[string]any{"server": a, "client": b})
+	}
+}
